@@ -288,10 +288,11 @@ func (hs *clientHandshakeState) handshake() error {
 		if _, err = c.flush(); err != nil {
 			return err
 		}
-		if err = hs.createNewSession(); err != nil {
+		if err = hs.readFinished(c.serverFinished[:]); err != nil {
 			return err
 		}
-		if err = hs.readFinished(c.serverFinished[:]); err != nil {
+		// 仅在服务端 Finished 验证通过后才缓存会话：握手失败的会话不得被缓存和再次使用
+		if err = hs.createNewSession(); err != nil {
 			return err
 		}
 	}
